@@ -632,6 +632,18 @@ func (e *Env) call(x *ECall) Term {
 		}
 		hn, hs, _, _ := vc.mapVars(mt)
 		return Term{S: sx("select", sx("select", vc.get(e.st, hn, hs), m.S), k.S), Sort: "Bool"}
+	case "keys", "vals":
+		// the key set / value function of a Go map, as arrays
+		m := e.tr(x.Args[0])
+		mt, ok := types.Unalias(m.T).Underlying().(*types.Map)
+		if !ok {
+			e.fail("%s() needs a map", x.Fun)
+		}
+		hn, hs, vn, vs := vc.mapVars(mt)
+		if x.Fun == "keys" {
+			return Term{S: sx("select", vc.get(e.st, hn, hs), m.S), Sort: splitSortArgs(hs)[1]}
+		}
+		return Term{S: sx("select", vc.get(e.st, vn, vs), m.S), Sort: splitSortArgs(vs)[1]}
 	case "dyn":
 		// dyn(x, *T): dynamic type test
 		a := e.tr(x.Args[0])
